@@ -335,7 +335,7 @@ def type_range(t, dt=None):
 
 
 class IState(object):
-    __slots__ = ('env', 'ptr', 'reads', 'events', 'facts', 'visits')
+    __slots__ = ('env', 'ptr', 'reads', 'events', 'facts', 'visits', 'origin', 'stop')
 
     def __init__(self):
         self.env = {}      # key -> (lo, hi)
@@ -344,6 +344,8 @@ class IState(object):
         self.events = []   # overflow events
         self.facts = {}    # key -> set of ('<', other key) relational facts established by branches
         self.visits = {}   # loop head node id -> times this path passed it
+        self.origin = {}   # key -> index in reads of the input byte the variable holds unchanged
+        self.stop = None   # index in reads of the last input byte known to be >= 128 (stop bit seen)
 
     def copy(self):
         s = IState()
@@ -353,6 +355,8 @@ class IState(object):
         s.events = list(self.events)
         s.facts = dict((k, set(v)) for k, v in self.facts.items())
         s.visits = dict(self.visits)
+        s.origin = dict(self.origin)
+        s.stop = self.stop
         return s
 
 
@@ -635,11 +639,21 @@ class IntervalInterp(object):
                         lo, hi = max(lo, yv[0]), min(hi, yv[1])
                     if lo <= hi:
                         st.env[kx] = (lo, hi)
+                        if kx in st.origin and lo >= 128:
+                            st.stop = st.origin[kx]
                 # relational fact: cursor < limit
                 ky = self.key_of(self.unwrap(y))
                 if kx is not None and o == '<' and self.is_cursor(kx) and self.is_limit(y):
                     st.facts['bound'] = set(['cursor<limit'])
         else:
+            ua = self.unwrap(a)
+            if label and ua is not None and ua.k == 'bin' and ua.op == '&':
+                # stop-bit test written as a mask: x & 0x80
+                for x, y in ((ua.a[0], ua.a[1]), (ua.a[1], ua.a[0])):
+                    cy = const_value(y)
+                    kx = self.key_of(self.unwrap(x))
+                    if cy == 128 and kx is not None and kx in st.origin:
+                        st.stop = st.origin[kx]
             k = self.key_of(self.unwrap(a))
             v = self.ev(a, st)
             if k is not None and v is not None:
@@ -661,11 +675,27 @@ class IntervalInterp(object):
         return e.k == 'var' and e.op in getattr(self, 'limit_names', ())
 
     # ---- effects
+    def is_pure_read(self, e, st):
+        e = self.unwrap(e)
+        if e is None:
+            return False
+        base = None
+        if e.k == 'idx':
+            base = strip(e.a[0])
+        elif e.k == 'un' and e.op == '*':
+            base = strip(e.a[0])
+        return base is not None and base.k == 'var' and (base.decl in st.ptr or base.op in self.input_params)
+
     def assign(self, lhs, val, st, line, node):
         l = self.unwrap(lhs)
         key = self.key_of(l)
         if key is None:
             return
+        rhs = node.a[1] if (node is not None and getattr(node, 'k', None) == 'bin' and node.op == '=') else node
+        if rhs is not None and getattr(rhs, 'k', None) is not None and self.is_pure_read(rhs, st) and st.reads:
+            st.origin[key] = len(st.reads) - 1
+        else:
+            st.origin.pop(key, None)
         if val is not None:
             rng = type_range(l.t, l.dt)
             if rng is not None and (val[0] < rng[0] or val[1] > rng[1]):
